@@ -2,6 +2,7 @@
 //! One subcommand per property; see /verif/DESIGN.md.
 
 mod c11_c13;
+mod c18;
 #[path = "../../common/ctx.rs"]
 mod ctx;
 mod explore;
@@ -37,6 +38,7 @@ fn main() {
         let r = match prop.as_str() {
             "C11" => c11_c13::replay(stream_sys::Which::C11, case),
             "C13" => c11_c13::replay(stream_sys::Which::C13, case),
+            "C18" => c18::replay(case),
             _ => {
                 eprintln!("no replay for {prop}");
                 std::process::exit(2)
@@ -61,6 +63,7 @@ fn main() {
     match prop.as_str() {
         "C11" => c11_c13::run(stream_sys::Which::C11, tier),
         "C13" => c11_c13::run(stream_sys::Which::C13, tier),
+        "C18" => c18::run(tier),
         _ => {
             eprintln!("unknown property {prop}");
             std::process::exit(2)
